@@ -485,8 +485,8 @@ impl<'a> P<'a> {
         }
         self.skip_space();
         let v = self.attr_value()?;
-        let vb = v.as_bytes();
-        if !(vb.len() >= 3 && vb[0] == b'1' && vb[1] == b'.' && vb[2..].iter().all(|b| b.is_ascii_digit())) {
+        // VersionNum as in XML 1.0 (4th edition) and as expat reads it
+        if v.is_empty() || !v.bytes().all(|b| b.is_ascii_alphanumeric() || matches!(b, b'_' | b'.' | b':' | b'-')) {
             return self.err("bad version");
         }
         let mut sp = self.skip_space();
